@@ -501,6 +501,16 @@ def stage_proof(ctx, prop_files, extra_targets=()):
     ctx.obligations += ob
     ctx.discharged += di
     ctx.theorems.extend(det)
+    if ctx.tier == 'thorough':
+        # independent re-check of the compiled property files and everything they depend on
+        mods = ['SkTT.' + f[:-2].replace('/', '.') for f in prop_files]
+        t0 = time.time()
+        rc, out = _run(['timeout', '3000', 'coqchk', '-silent', '-o', '-R', '.', 'SkTT'] + mods, cwd=COQ, timeout=3100)
+        m = re.search(r'\* Axioms:(.*?)\n\s*\n\* Constants', out, flags=re.S)
+        axs = [a.strip() for a in (m.group(1).split('\n') if m else []) if a.strip() and a.strip() != '<none>']
+        ctx.notes.append('coqchk -o %s: rc %d, %.0fs, axioms of the loaded libraries: %s' % (' '.join(mods), rc, time.time() - t0, axs or 'none'))
+        if rc != 0 or 'type-in-type: <none>' not in out or 'unsafe (co)fixpoints: <none>' not in out or 'positivity is assumed: <none>' not in out:
+            problems.append('coqchk rejected %s: %s' % (mods, out[-600:]))
     for p in problems:
         ctx.fail('proof obligation: ' + p, {'stage': 'audit', 'problem': p}, tags={'stage': 'audit'}, found_input=False)
     return not problems
